@@ -185,6 +185,7 @@ def also_violates(why, trace, line):
     if why in ("C04.UnexpectedOutcome", "C04.NoTermination"):
         if gen and (abandoned or why == "C04.NoTermination"): out.add("C16")   # (a generator that never ends keeps the object "already running")                     # C16: "terminates cleanly and leaves the Parallel object reusable"
         if healthy: out.add("C01")
+    if why == "C04.SpuriousTimeout" and gen: out.add("C16")                  # C16: each result is delivered (a timeout nobody reached loses the rest)
     if why == "C16.SpuriousRuntimeError" and prior_failed: out.add("C04")    # C04: "can be called again"
     if why == "C09.DispatchAfterStop" and abandoned and not prior_failed: out.add("C16")   # C16: closing "stops further dispatch"
     return out
